@@ -185,6 +185,11 @@ def build_program(rng, nvals):
     lines.append('string ' + 'B' * rng.choice([4, 0x7fc, 0x1000, rng.randrange(4, 0x2000, 4)]))
     lines.append('LB:')
     lines.append('addi x0, x0, 0')
+    for ln in list(lines):
+        # a label with the same name as a constant (separate namespaces): %hi/%lo of the name still mean the constant
+        if ln.startswith('V') and ' = ' in ln and rng.random() < 0.3:
+            lines.append(ln.split()[0] + ':')
+            lines.append('addi x0, x0, 0')
     return lines, checks
 
 
